@@ -781,12 +781,12 @@ class QueueCollection(object):
                    queue_version[:3] == version[:3]:
                     queued_pr = self._queues.get(queue_version)
                     if queued_pr is not None and \
-                       queued_pr.get(QueueIntegrationBranch) is not None:
+                       queued_pr.get(QueueIntegrationBranch):
                         return True
             return False
         # classic test otherwise
-        return (self._queues.get(version, {}).get(QueueIntegrationBranch)
-                is not None)
+        return bool(
+            self._queues.get(version, {}).get(QueueIntegrationBranch))
 
     def delete(self):
         """Delete the queues entirely."""
